@@ -43,6 +43,7 @@ def _nat(s):
 class World:
     def __init__(self, ctx: Ctx):
         self.ctx = ctx
+        ctx.begin_case()       # scratch paths are recycled from history to history (core.Ctx.begin_case)
         self.dir = ctx.tmpdir()
         self.files = [os.path.join(self.dir, "f0.cool"), os.path.join(self.dir, "f1.cool")]
         self.entries: list[dict] = [{}, {}]          # path -> entry
